@@ -10,7 +10,7 @@ LEAN_MODULES = ['MV.Props.C03']
 LEAN_HELPERS = ['MV.Lemmas.Events', 'MV.Model.Render', 'MV.Model.Pitch', 'MV.Model.Rel', 'MV.Model.Basic']
 DRIVERS = ['C03']
 GEN = ['Tables', 'Library']
-SRC_TIE = ['SrcRender']   # py2lean source images of note_to_pitch / melody_to_pitches proved equal to the model
+SRC_TIE = ['SrcRender', 'SrcDur']   # py2lean source images of note_to_pitch / melody_to_pitches proved equal to the model
 RULE = ('random scores: 1-4 chords, 1-3 parts of unequal lengths, parts absent from some chords, rests and '
         'continuations anywhere (incl. first position and after absences), relative notes, drums, all note systems, '
         'dynamics; streams: note matrix (get_notes) and to_events for tempi 30/60/90/120/7/121; non-trivial = at '
